@@ -904,3 +904,75 @@ Proof.
     pose proof (dec_digits_are_digits (S (N.to_nat (N.log2 (Npos p)))) (Npos p) [] (Forall_nil _)) as D.
     fold (dec_of_N (Npos p)) in D. rewrite V. split; [reflexivity|]. split; [lia|exact D].
 Qed.
+
+(* ------------------------------------------------------------------ why further code shapes denote the same model
+   (tools/genx_str.py maps them to the same Generated.v definitions; see design.d/C16.md) *)
+
+(* String_Rem may return at once for an empty needle: the general path moves the whole string
+   onto itself *)
+Theorem rem_empty_needle_is_noop rc (Hrc : forall hl pl nl, rc hl pl nl = (pl - nl + 1)%Z) chk b s :
+  repr b s -> m_rem rc chk b [] = (b, SUnit).
+Proof.
+  intros Hr. unfold m_rem. rewrite (repr_c_str _ _ Hr).
+  assert (E : find_sub [] s = Some 0) by (destruct s; reflexivity). rewrite E, Hrc.
+  rewrite Nat.sub_0_r. cbn [length Nat.add].
+  destruct (Z.ltb_spec (Z.of_nat (length s) - Z.of_nat 0 + 1) 0) as [?|_]; [lia|].
+  rewrite memmove_id; [reflexivity|].
+  destruct Hr as [_ [t ->]]. rewrite app_length, map_length. cbn [length]. lia.
+Qed.
+
+(* `strlen(pos + strlen(needle))` read as `strlen(pos) - strlen(needle)`: pos is where strstr
+   found the needle, so the needle's bytes are there *)
+Theorem tail_length_after_match v h i : find_sub v h = Some i ->
+  length (skipn (i + length v) h) = (length h - i) - length v.
+Proof.
+  intros H. apply find_sub_some in H. destruct H as [l [r [-> <-]]].
+  rewrite skipn_length, !app_length. lia.
+Qed.
+
+Lemma skipn_skipn' (T : Type) x : forall y (l : list T), skipn x (skipn y l) = skipn (x + y) l.
+Proof.
+  induction y as [|y IH]; intros l; [rewrite Nat.add_0_r; reflexivity|].
+  destruct l; [rewrite !skipn_nil; reflexivity|]. rewrite Nat.add_succ_r. cbn [skipn]. apply IH.
+Qed.
+
+(* String_Concat may copy the terminator along (memmove of m+1 bytes) instead of m bytes and an
+   explicit store: with the String itself as source the byte behind the n characters IS the
+   terminator, and memmove copies as if through a temporary *)
+Theorem concat_self_move_with_terminator (s : list nat) t : length s <= length t ->
+  let b := map Some s ++ Some 0 :: t in
+  let n := length s in
+  memmove b n 0 (n + 1) =
+  match memmove b n 0 n with Some b' => write b' (n + n) [0] | None => None end.
+Proof.
+  intros Ht b n. subst b n.
+  change (Some 0 :: t) with ([Some 0] ++ t).
+  rewrite <- (map_length (@Some nat) s).
+  rewrite memmove_dup by (rewrite app_length, map_length; cbn [length]; lia).
+  set (A := map Some s). 
+  assert (Hw : write (A ++ A ++ skipn (length A) ([Some 0] ++ t)) (length A + length A) [0]
+               = Some ((A ++ A) ++ map Some [0] ++ skipn 1 (skipn (length A) ([Some 0] ++ t)))).
+  { rewrite app_assoc. rewrite <- (app_length A A). apply write_prefix.
+    rewrite skipn_length, app_length. unfold A. rewrite map_length. cbn [length]. lia. }
+  rewrite Hw. clear Hw.
+  assert (HA : length A = length s) by (unfold A; apply map_length).
+  unfold memmove.
+  assert (L1 : (0 + (length A + 1) <=? length (A ++ [Some 0] ++ t)) = true)
+    by (apply Nat.leb_le; rewrite !app_length; cbn [length]; lia).
+  assert (L2 : (length A + (length A + 1) <=? length (A ++ [Some 0] ++ t)) = true)
+    by (apply Nat.leb_le; rewrite !app_length; cbn [length]; lia).
+  rewrite L1, L2. cbn [andb]. f_equal. rewrite skipn_O.
+  assert (P1 : firstn (length A) (A ++ [Some 0] ++ t) = A).
+  { rewrite firstn_app, Nat.sub_diag, firstn_all. cbn [firstn]. apply app_nil_r. }
+  assert (P2 : firstn (length A + 1) (A ++ [Some 0] ++ t) = A ++ [Some 0]).
+  { rewrite firstn_app, firstn_all2 by lia. replace (length A + 1 - length A) with 1 by lia. reflexivity. }
+  assert (P3 : skipn (length A + (length A + 1)) (A ++ [Some 0] ++ t) = skipn 1 (skipn (length A) ([Some 0] ++ t))).
+  { rewrite skipn_skipn', skipn_app. rewrite (skipn_all2 A) by lia. cbn [app]. f_equal. lia. }
+  rewrite P1, P2, P3. rewrite <- !app_assoc. reflexivity.
+Qed.
+
+(* String_Format_To with a local buffer of 64 bytes and the heap path only for size > 64 (the
+   seeded off-by-one): a piece of exactly 64 characters copies 65 bytes out of the 64-byte array *)
+Theorem format_local_buffer_off_by_one_undefined fa (b : list (option nat)) pos text :
+  length text = 64 -> m_format_to fa 64 (fun size cap => cap <? size) b pos text = None.
+Proof. intros H. unfold m_format_to. rewrite H. reflexivity. Qed.
